@@ -238,7 +238,7 @@ def gen(r, tier, i):
             given.append([p, v + 1])
     case['given'] = given
     case['probe_is_step'] = r.random() < 0.4       # the declaring process is a Step (listed under steps)
-    case['conflict'] = {'key': r.choice(['_value', '_units', '_serializer', '_default', '_updater']),
+    case['conflict'] = {'key': r.choice(['_value', '_units', '_serializer', '_default', '_updater', 'default_units', 'value_units']),
                         'same': r.random() < 0.4}
     return case
 
@@ -502,18 +502,28 @@ def conflict_case(V, spec):
             '_units': (units.fg, units.fg if same else units.s),
             '_serializer': ('vmon_tag_a', 'vmon_tag_a' if same else 'vmon_tag_b'),
             '_default': (1, 1 if same else 2),
-            '_updater': ('set', 'set' if same else 'accumulate')}[key]
+            '_updater': ('set', 'set' if same else 'accumulate'),
+            # units given only through the defaults: another unit of the same dimension is compatible (the first
+            # declaration's unit is kept), a unit of another dimension is a conflict; also default against _value
+            'default_units': (1.0 * units.fg, 1000.0 * units.ag if same else 1.0 * units.s),
+            'value_units': (1.0 * units.fg, 1000.0 * units.ag if same else 1.0 * units.s)}[key]
     _ensure_serializers()
     base = {'_default': 1.0 * units.fg} if key == '_units' else {'_default': 1}
     s1 = {'P': {'x': dict(base, **{key: vals[0]})}}
     s2 = {'P': {'x': dict(base, **{key: vals[1]})}}
+    if key == 'default_units':
+        s1 = {'P': {'x': {'_default': vals[0]}}}
+        s2 = {'P': {'x': {'_default': vals[1]}}}
+    elif key == 'value_units':
+        s1 = {'P': {'x': {'_default': vals[0]}}}
+        s2 = {'P': {'x': {'_value': vals[1]}}}
     try:
         Engine(processes={'a': Probe({'schema': s1}), 'b': Probe({'schema': s2})},
                topology={'a': {'P': ('st',)}, 'b': {'P': ('st',)}}, display_info=False, emitter='null')
         raised = None
     except Exception as ex:
         raised = ex
-    if key in ('_value', '_units', '_serializer'):
+    if key in ('_value', '_units', '_serializer', 'default_units', 'value_units'):
         if same:
             V.check('compatible_accepted', raised is None, lambda: ('equal %s declarations rejected' % key, repr(raised)[:200]))
         else:
